@@ -1172,6 +1172,7 @@ result_t ChainedMessage::prepareMasterPart(size_t index, char separator, istring
   if (result != RESULT_OK) {
     return result;
   }
+  allData.adjustHeader();  // set NN, otherwise getDataSize() below is always 0
   size_t pos = 0, addData = 0;
   if (m_isWrite) {
     addData = m_lengths[0];
